@@ -1,5 +1,6 @@
 """Shared building blocks of the property modules (props/cNN.py)."""
 import importlib
+import os
 import time
 
 import z3
@@ -57,6 +58,24 @@ def canary_contract(res, modname, base_name, clause, broken_text, tier='quick'):
     return caught
 
 
+def _cvc5(solver, seconds=60):
+    import subprocess
+    import tempfile
+    try:
+        with tempfile.NamedTemporaryFile('w', suffix='.smt2', delete=False) as f:
+            f.write('(set-logic ALL)\n' + solver.to_smt2())
+            path = f.name
+        try:
+            p = subprocess.run(['/usr/bin/cvc5', '--strings-exp', f'--tlimit={seconds * 1000}', path], capture_output=True, text=True,
+                               timeout=seconds + 10)
+            out = (p.stdout.strip().splitlines() or ['error'])[0].strip()
+            return out if out in ('sat', 'unsat', 'unknown') else 'not-run(' + (p.stderr.strip().splitlines() or [out])[0][:60] + ')'
+        finally:
+            os.unlink(path)
+    except Exception as e:  # noqa
+        return f'not-run({type(e).__name__})'
+
+
 def lemma(res, name, build, detail='', timeout_ms=20000, decisive=False):
     """LEMMA obligation over spec-level terms only: build() -> (facts, goal) z3 formulas; discharged iff
     facts /\\ not goal is unsat."""
@@ -70,6 +89,17 @@ def lemma(res, name, build, detail='', timeout_ms=20000, decisive=False):
         s.add(z3.Not(goal))
         r = s.check()
         o.backend = 'z3-' + z3.get_version_string()
+        if r == z3.unsat and os.environ.get('PV_CROSSCHECK', '') == '1':
+            # second back end (thorough tier): the same query in SMT-LIB to cvc5; 'sat' there is a checker fault (the two
+            # solvers disagree), 'unsat' is recorded, anything else (unknown, timeout, unsupported construct) is noted only
+            x = _cvc5(s)
+            o.backend += ' + cvc5:' + x
+            if x == 'sat':
+                o.status, o.detail = 'notformed', detail + ' | z3 says unsat, cvc5 says sat: solver disagreement'
+                o.seconds = time.time() - t0
+                res.conformance.setdefault('mismatches', []).append({'contract': name, 'what': 'z3 unsat / cvc5 sat', 'args': None})
+                res.add(o)
+                return o
         if r == z3.unsat:
             o.status = 'discharged'
         elif r == z3.sat:
